@@ -485,6 +485,10 @@ class Walker:
             if r is not None and r[0] == 'func':
                 return self.func_call(r[1], args, kwargs, node)
             base = self.expr(f.value, env)
+            if base[0] in ('name', 'getattr', 'index', 'proj', 'objcall', 'dyncall', 'phi', 'ite', 'procattr', 'sys'):
+                # call on an object the walker cannot type: an effect as far as rules are concerned
+                self.emit('ObjCall', node, recv=base, method=f.attr, args=args)
+                return ('objcall', base, f.attr, tuple(args), self.fresh())
             return ('methodcall', base, f.attr, tuple(args))
         if isinstance(f, ast.Name):
             if f.id in env and env[f.id][0] not in ('funcref', 'classref'):
